@@ -272,6 +272,8 @@ fn gen_opts(thorough: bool, std_per_mille: u32, dep_weights: [u32; 3]) -> P2Opts
         },
         multi_sources: true,
         deps: true,
+        alias_per_mille: 300,
+        twin_warning_per_mille: 300,
         dep_weights,
         std_per_mille,
         collide_per_mille: 0,
